@@ -29,6 +29,27 @@ def match_table(F, path, want_ret="Precedence"):
     for a in ms[0]["arms"]:
         pats = a["pat"]["alts"] if a["pat"]["pk"] == "or" else [a["pat"]]
         b = a["body"]
+        while b.get("k") == "Block" and not b["stmts"] and b.get("expr"):
+            b = b["expr"]
+        if a["pat"]["pk"] in ("bind", "wild") and not a.get("guard"):
+            # the rest: `other => Precedence::next(other)` hands the remaining variants to another table of this type, `_ => X`
+            # gives them all one value
+            if b.get("k") == "Call" and b["f"].get("k") == "Path" and b["f"]["r"].get("path", "").startswith("ast::expr::Precedence::") and len(b["args"]) == 1 \
+                    and a["pat"]["pk"] == "bind" and (H.local_name(b["args"][0]) or ("",))[0] == a["pat"].get("name"):
+                for v_, val_ in match_table(F, b["f"]["r"]["path"], want_ret).items():
+                    out.setdefault(v_, val_)
+                continue
+            ty = str(ms[0]["scrut"].get("ty", "")).lstrip("&")
+            try:
+                variants = [v_["name"] for v_ in F.adt(CORE, ty)["variants"]]
+            except AnchorLost:
+                variants = None
+            if variants and b.get("k") in ("Path", "Lit"):
+                val_ = b["r"].get("path", "").split("::")[-1] if b.get("k") == "Path" else b["lit"]["v"]
+                for v_ in variants:
+                    out.setdefault(v_, val_)
+                continue
+            raise AnchorLost("%s: catch-all arm is neither a constant nor a call of another table with the same operator" % path)
         if b.get("k") == "Path":
             val = b["r"].get("path", "").split("::")[-1]
         elif b.get("k") == "Lit":
@@ -86,6 +107,49 @@ def conditional_writer(F, call):
     if len(tw) != 1 or ew or params[si] not in H.expr_str(tw[0], 120):
         return None
     return conds[0], lits[0]["lit"]["v"]
+
+
+def group_writer(F, call):
+    """`write_group(out, prec < X, |out| { .. })`: a private function of this crate that writes "(" when its bool argument is true,
+    then runs its closure argument once, then writes ")" under the same bool - and nothing else.  Returns (condition, closure body)
+    or None."""
+    if F is None or call.get("k") != "Call" or call["f"].get("k") != "Path":
+        return None
+    import facts as _f
+    g = _f.private_helper(F, CORE, call["f"]["r"].get("path", ""))
+    if g is None:
+        return None
+    clos = [a for a in call["args"] if a.get("k") == "Closure"]
+    conds = [a for a in call["args"] if (a.get("k") == "Binary" and a.get("op") == "Lt") or (a.get("k") == "Path" and H.local_name(a) and a.get("ty") == "bool")]
+    if len(clos) != 1 or len(conds) != 1:
+        return None
+    h = F.hir_of(g)
+    params = [(x.get("pat") or x).get("name") for x in h.get("params", [])]
+    bi, ci = call["args"].index(conds[0]), call["args"].index(clos[0])
+    if bi >= len(params) or ci >= len(params):
+        return None
+    body = H.simplify(h["body"])
+    seq = []
+    for kind, node in H.stmts_of(body):
+        e = node.get("init") if kind == "let" else node
+        while e is not None and e.get("k") in ("Try", "DropTemps") and e.get("e"):
+            e = e["e"]
+        if e is None:
+            continue
+        if e.get("k") == "If" and H.local_name(e["cond"]) and H.local_name(e["cond"])[0] == params[bi] and not e.get("else"):
+            lits = [x["lit"]["v"] for x in hir_walk(e["then"]) if x.get("k") == "Lit" and x["lit"].get("lit") == "str"]
+            seq.append("".join(lits))
+        elif e.get("k") == "Call" and H.local_name(e["f"]) and H.local_name(e["f"])[0] == params[ci]:
+            seq.append("BODY")
+        elif e.get("k") == "Call" and e["f"].get("k") == "Path" and e["f"]["r"].get("path", "").endswith(("Result::Ok", "Ok")):
+            continue
+        elif e.get("k") in ("Path", "Lit", "Tup"):
+            continue
+        else:
+            return None
+    if seq != ["(", "BODY", ")"]:
+        return None
+    return conds[0], clos[0]["body"]
 
 
 def printer_events(arm_body, F=None, variant=None):
@@ -149,6 +213,17 @@ def printer_events(arm_body, F=None, variant=None):
                                     b_ = b_["expr"]
                                 return b_
                             local_defs[nm] = ("first-rest", prec_arg(tail(init["then"]), local_defs), prec_arg(tail(init["else"]), local_defs))
+                        elif init.get("k") == "Match" and variant and any("UnaryOpType::" in H.pat_str(a_["pat"]) for a_ in init["arms"]):
+                            # `let sign = match op { Positive => "+", _ => "-" }` in an arm shared by several operators: the text this
+                            # operator prints
+                            hit = [a_ for a_ in init["arms"] if ("UnaryOpType::" + variant) in H.pat_str(a_["pat"])] or [a_ for a_ in init["arms"] if a_["pat"]["pk"] == "wild"]
+                            b_ = hit[0]["body"] if hit else {}
+                            while b_.get("k") == "Block" and not b_["stmts"] and b_.get("expr"):
+                                b_ = b_["expr"]
+                            if b_.get("k") == "Lit" and b_["lit"].get("lit") == "str":
+                                local_defs[nm] = ("text", b_["lit"]["v"])
+                            else:
+                                walk(init)
                         else:
                             walk(init)
                 else:
@@ -209,6 +284,20 @@ def printer_events(arm_body, F=None, variant=None):
                     continue
                 walk(a["body"])
             return
+        gw = group_writer(F, e) if k == "Call" else None
+        if gw:
+            c, cbody = gw
+            if c.get("k") == "Binary" and H.local_name(c["a"]) and "Precedence" in c["a"].get("ty", ""):
+                lvl = prec_arg(c["b"], local_defs)
+            elif H.local_name(c) and isinstance(local_defs.get(H.local_name(c)[0]), tuple) and local_defs[H.local_name(c)[0]][0] == "needs-parens":
+                lvl = local_defs[H.local_name(c)[0]][1]
+            else:
+                lvl = None
+            if lvl is not None:
+                events.append(("paren-open", lvl))
+                walk(H.simplify(cbody))
+                events.append(("paren-close", lvl))
+                return
         cw = conditional_writer(F, e) if k == "Call" else None
         if cw:
             c, text = cw
@@ -220,6 +309,8 @@ def printer_events(arm_body, F=None, variant=None):
             return
         w = is_lit_write(e)
         if w:
+            if w[0] == "fmt" and isinstance(local_defs.get(w[1]), tuple) and local_defs[w[1]][0] == "text":
+                w = ("lit", "".join(w[2]) + local_defs[w[1]][1])      # a local that holds this operator's text
             events.append(w if w[0] == "lit" else (w[0], w[1]))
             return
         for v in e.values():
